@@ -13,7 +13,7 @@
      small            fewer than 2^61 candidates (a slice that fits in memory)
      nonan            neither the limit nor any radius is NaN (then a voter is
                       exactly a non-periodic qualifying candidate) *)
-From V Require Import Model.Select Proofs.Select.
+From V Require Import Model.Select Proofs.Select Model.MsgLoop Proofs.MsgLoop.
 
 (* A non-empty selection (the only case in which update_clock touches the
    clock, see C03_steer_only_on_consensus) implies a consensus: there is a point
@@ -71,6 +71,27 @@ Theorem C03_select_never_panics : forall cf cands,
   forall site, select cf cands <> Panic site.
 Proof. exact select_no_panic. Qed.
 
+(* Controller level (Model/MsgLoop.v, tied to the real controller and message loop by C37's
+   harness).  Whenever update_clock reaches select (handling ev after the schedule prefix pre), the
+   candidates are exactly the latest snapshots of the sources that are registered, were last
+   reported usable and have delivered a snapshot: unusable sources never reach the selection. *)
+Theorem C03_only_usable : forall W pre ev L,
+  select_input (state_after W pre) ev = Some L ->
+  forall k, In k (map snap_core L) <->
+            exists j, src_view (ops_of j (pre ++ [ev])) = Some (Some k, true).
+Proof. exact select_input_spec. Qed.
+
+(* A handled message makes clock calls (disable_ntp_algorithm, step_clock, set_frequency,
+   error_estimate_update, status_update) only in the branch where select was reached and returned
+   a non-empty selection, and reports exactly that selection as used.
+   _partial: the wrapper's timer path (time_update -> set_frequency(desired 0), which ends a slew
+   whose timer was armed by the next_update of such a consensus step) is not in the model. *)
+Theorem C03_steer_only_on_consensus_partial : forall W c ev c' o,
+  handle W c ev = (c', o) -> o_clock o <> [] ->
+  exists L sel, select_input c ev = Some L /\ w_select W L = sel /\ sel <> [] /\
+                o_used o = Some (map snap_id sel).
+Proof. exact clock_calls_need_selection. Qed.
+
 (* non-vacuity: three agreeing voters out of four with minimum 3 are selected,
    a 2-2 tie is not, and the sweep of the first case reaches 3 *)
 Example C03_nonvacuous :
@@ -92,3 +113,5 @@ Print Assumptions C03_members_qualify.
 Print Assumptions C03_unqualified_irrelevant.
 Print Assumptions C03_sweep_balanced.
 Print Assumptions C03_select_never_panics.
+Print Assumptions C03_only_usable.
+Print Assumptions C03_steer_only_on_consensus_partial.
